@@ -436,6 +436,17 @@ func Diff(want, got any, path string) string {
 // ---------------------------------------------------------------------------
 
 // Violation is one broken constraint.
+// ExclMaxRule names the exclusive-maximum rule of a validation. Next to an exclusive MINIMUM it has a name of its
+// own: goa's validation code generator (codegen.validationCode) leaves isExclMin set when it renders the exclusive
+// maximum, so that the minimum check is emitted twice and the maximum never (known finding; goa's own golden tests
+// embed that output).
+func ExclMaxRule(v *spec.Validation) string {
+	if v != nil && v.ExclMin != nil {
+		return "excl_max_beside_excl_min"
+	}
+	return "excl_max"
+}
+
 type Violation struct {
 	Path string // attribute path, e.g. body.item.qty
 	Rule string // required | enum | format | pattern | min | max | excl_min | excl_max | min_length | max_length
@@ -505,7 +516,7 @@ func Validate(d *spec.Design, v any, a *spec.Attr, path string) []Violation {
 				out = append(out, Violation{path, "excl_min"})
 			}
 			if val.ExclMax != nil && f >= *val.ExclMax {
-				out = append(out, Violation{path, "excl_max"})
+				out = append(out, Violation{path, ExclMaxRule(val)})
 			}
 		}
 		if n, ok := length(v); ok {
